@@ -212,7 +212,10 @@ pub fn check_e2e(rec: &J) -> Verdict {
         return Verdict::viol(format!("interpreter {}", obs.outcome_str()), J::Null);
     }
     let multiline_noise = rec["text"].as_str().unwrap().contains("(a\nb)");
-    if st != "unspec" {
+    // what is compared is the business of the property whose check replays the family: the run (C04 C05 C14 C15 ...), the lint
+    // report (C18 C19), or both; a crash of either is always reported
+    let parts = std::env::var("VH_E2E_PARTS").unwrap_or_else(|_| "all".into());
+    if st != "unspec" && parts != "lint" {
         if obs.is_ok() != (st == "ok") {
             return Verdict::viol(format!("outcome {} where the model ends with `{}`", obs.outcome_str(), st), json!({"out": obs.out_text()}));
         }
@@ -272,6 +275,9 @@ pub fn check_e2e(rec: &J) -> Verdict {
     let canonical = rec["tape"].as_array().map_or(true, |t| t.is_empty());
     let keep = |d: &J| canonical || d["pass"] != "repeat";
     let obs_diags: Vec<J> = diags.iter().map(crate::fam::lint::diag_json).filter(|d| keep(d)).collect();
+    if parts == "run" {
+        return Verdict::ok(true);
+    }
     let exp_all = rec["report"].as_array().unwrap();
     let exp: Vec<&J> = exp_all.iter().filter(|d| keep(d)).collect();
     let fail = |m: String| Verdict::viol(m, json!({"report": obs_diags.clone()}));
